@@ -174,6 +174,10 @@ def rule_typer(repo: Repo) -> List[Ob]:
             sink = node_for(c, call)
             tests = controlling_tests(c, sink)
             ok = any("tuple" in src(t.ast) and reach is False for t, reach in tests)
+            if not ok:
+                # False if type(member) is tuple else self._get_values_for_expr(member)
+                from ..shape import ifexp_facts
+                ok = any("tuple" in src(fact) and truth is False for fact, truth in ifexp_facts(call))
             obs.append(Ob("E-typer", f"{rp}::{f.qualname}::interval-refused", rp, call.lineno, f.qualname, ok,
                           "an interval (tuple) in a support makes the value set fail before it could be read as a value" if ok else
                           "support elements reach _get_values_for_expr without the interval (tuple) test: a continuous range would be typed as one value"))
@@ -1234,8 +1238,10 @@ def rule_typer_fixpoint(repo: Repo) -> List[Ob]:
         raise AnalysisError("typer: state mutations not found")
     # types are extracted only after the fixed point was reached
     inf = cls.methods.get("infer_types")
-    c = cfg_of(inf.node)
-    rets = [r for r in walk_no_nested(inf.node) if isinstance(r, ast.Return)]
+    from ..shape import expanded as _exp2
+    infx = _exp2(repo, inf)            # the two loops may have been moved into helpers of the typer
+    c = cfg_of(infx)
+    rets = [r for r in walk_no_nested(infx) if isinstance(r, ast.Return)]
     from .discipline import _canonical_quantifier
 
     def still_changing(e) -> Optional[bool]:
@@ -1252,12 +1258,57 @@ def rule_typer_fixpoint(repo: Repo) -> List[Ob]:
                 # _canonical_quantifier folds the enclosing `not` itself
                 return {"any": True, "none": False}.get(cq[0])
         return None
-    whiles = [t for t in c.nodes if t.kind == "test" and t.label == "while" and isinstance(t.ast, ast.expr) and still_changing(t.ast) is not None]
+    whiles = [t for t in c.nodes if t.kind == "test" and isinstance(t.ast, ast.expr) and still_changing(t.ast) is not None]
     ok = bool(rets) and bool(whiles)
     if ok:
-        w = whiles[-1]
+        # every path to the return crosses an outcome of a fixed-point test that says `reached` (the exit of `while still changing`, the true
+        # arm of `if reached: break`), and no pass of the iteration runs between that outcome and the return
         rn = node_for(c, rets[-1])
-        ok = still_changing(w.ast) is True and c.dominates(w, rn) and not any(isinstance(x, ast.Break) for x in ast.walk(w.stmt))
+        good = set()
+        for t in whiles:
+            sc = still_changing(t.ast)
+            for nxt, lab in c.succ[t]:
+                if isinstance(lab, bool) and ((sc is True and lab is False) or (sc is False and lab is True)):
+                    good.add((id(t), id(nxt)))
+        seen_, stack_ = set(), [c.entry]
+        unguarded = False
+        while stack_:
+            n_ = stack_.pop()
+            if id(n_) in seen_:
+                continue
+            seen_.add(id(n_))
+            if n_ is rn:
+                unguarded = True
+                break
+            for nxt, lab in c.succ[n_]:
+                if (id(n_), id(nxt)) not in good:
+                    stack_.append(nxt)
+        # after a `reached` outcome nothing changes the state before the return
+        def changes_state(n_):
+            if n_.ast is not None and n_ is not rn and n_.kind == "stmt" and any(isinstance(x, ast.Assign) and any(isinstance(t_, ast.Attribute) and t_.attr in ("has_changed", "values", "is_locked", "has_failed")
+                                                                                                            for t_ in x.targets) for x in [n_.ast] if isinstance(n_.ast, ast.Assign)):
+                return True
+            return n_.ast is not None and n_ is not rn and any(isinstance(x, ast.Call) and isinstance(x.func, ast.Attribute) and isinstance(x.func.value, ast.Name) and x.func.value.id == "self"
+                                                                and cls.find_method(x.func.attr) is not None and can_announce(cls.find_method(x.func.attr).node.body) for x in ast.walk(n_.ast)
+                                                                if not (n_.kind == "test" and still_changing(n_.ast) is not None))
+        dirty = False
+        for t in whiles:
+            for nxt, lab in c.succ[t]:
+                if (id(t), id(nxt)) in good:
+                    seen2, st2 = set(), [nxt]
+                    while st2:
+                        n_ = st2.pop()
+                        if id(n_) in seen2 or n_ is rn:
+                            continue
+                        seen2.add(id(n_))
+                        if changes_state(n_) and c.reachable(n_, rn):
+                            # allowed when another `reached` outcome lies between this change and the return on every path: approximated by
+                            # requiring that the change is itself inside a loop governed by a fixed-point test
+                            if not any((id(w_), id(x_)) in good and c.reachable(n_, w_) for w_ in whiles for x_, _l in c.succ[w_]):
+                                dirty = True
+                            continue
+                        st2 += [x_ for x_, _l in c.succ[n_]]
+        ok = not unguarded and not dirty
     if not whiles:
         obs.append(inconclusive("E-typer-fixpoint", f"{rp}::FiniteFixedPointTyper.infer_types::exit", rp, inf.node.lineno, inf.qualname, "loop `while not fixed point reached` not recognised"))
     else:
@@ -1308,6 +1359,9 @@ def mut_typer_fixpoint(repo: Repo) -> List[Mutant]:
     ov = mutate_module(repo, rp, any_fix)
     if ov:
         out.append(Mutant("fixpoint-if-any-unchanged", ov, "fire", "_fixedpoint_reached::all"))
+    ov = text_mutant(repo, rp, "while not self._fixedpoint_reached():", "if not self._fixedpoint_reached():")
+    if ov:
+        out.append(Mutant("one-failing-pass-instead-of-a-loop", ov, "fire", "infer_types::exit"))
     return out
 
 
